@@ -819,6 +819,28 @@ class Tr:
                     return Ctor('Err', [err])
                 return k(self.vmap(v, leaf), env2)
             return self.evs([recv, args[0]], env, f)
+        if name == 'ok_or_else' and len(args) == 1 and args[0][0] == 'closure' and not args[0][1]:
+            clo = args[0]
+            def f(v, env2):
+                def leaf(x):
+                    x = self.as_option(x) if isinstance(x, Pure) else x
+                    if isinstance(x, Case):
+                        return self.vmap(x, leaf)
+                    if x.name == 'Some':
+                        return Ctor('Ok', [x.args[0]])
+                    return Ctor('Err', [self.pure_expr(clo[2], env2, env2.get('__impl'))])
+                return k(self.vmap(v, leaf), env2)
+            return self.ev(recv, env, f)
+        if name == 'unwrap_or' and len(args) == 1:
+            def f(vs, env2):
+                v, dflt = vs
+                def leaf(x):
+                    x = self.as_option(x) if isinstance(x, Pure) else x
+                    if isinstance(x, Case):
+                        return self.vmap(x, leaf)
+                    return x.args[0] if x.name in ('Some', 'Ok') else dflt
+                return k(self.vmap(v, leaf), env2)
+            return self.evs([recv, args[0]], env, f)
         if name == 'map_err' and len(args) == 1 and args[0][0] == 'closure':
             clo = args[0]
             def f(v, env2):
@@ -904,6 +926,14 @@ class Tr:
                     env3[n] = v
                 elif op == '+=':
                     env3[n] = Pure('(%s + %s)' % (paren(self.text(env2[n])), paren(self.text(v))))
+                elif op == '-=':
+                    a, b = paren(self.text(env2[n])), paren(self.text(v))
+                    env3[n] = Pure('(%s - %s)' % (a, b))
+                    if '__w' in env2:
+                        return 'if %s <=? %s then %s else Panic PkOverflow' % (b, a, paren(k(Ctor('Unit'), env3)))
+                    d = self.g.fresh('d')
+                    env3[n] = Pure(d)
+                    return 'bind (usub %s %s) (fun %s => %s)' % (a, b, d, k(Ctor('Unit'), env3))
                 else:
                     raise Unsupported('assignment %s' % op)
                 return k(Ctor('Unit'), env3)
